@@ -220,7 +220,15 @@ pub fn receipt(rng: &mut Rng, variant: usize, cap: usize) -> Receipt {
                 0 => ScriptExecutionResult::Success,
                 1 => ScriptExecutionResult::Revert,
                 2 => ScriptExecutionResult::Panic,
-                _ => ScriptExecutionResult::GenericFailure(rng.word().max(3)),
+                // incl. the codes that the word conversion maps to Success / Revert / Panic:
+                // as a value `GenericFailure(0)` is not `Success` and must come back as itself
+                _ => ScriptExecutionResult::GenericFailure(match rng.below(6) {
+                    0 => 0,
+                    1 => 1,
+                    2 => 2,
+                    3 => 3,
+                    _ => rng.word(),
+                }),
             };
             Receipt::script_result(res, rng.word())
         }
